@@ -131,7 +131,7 @@ def main(argv):
                     run.violation("impl", "cxx %s.parse_all(%s) raised %s (not a DecodeError)" % (T, s.hex()[:40], r.get("e") or r["r"]), rep)
                     continue
                 if r.get("r") == "err":
-                    if m.get("r") == "ok":
+                    if m.get("r") == "ok" and not tags.get("unsized_struct_not_last"):
                         rep["signature"] = {"class": "rejects-valid", "e": r.get("e"), **tags}
                         run.violation("impl", "cxx %s.parse_all(%s) raises %s but the reference accepts it" % (T, s.hex()[:40], r.get("e")), rep)
                     continue
@@ -139,6 +139,11 @@ def main(argv):
                     continue
                 if m.get("r") != "ok" and tags.get("unsized_padded_array"):
                     run.hist("skipped", "unsized-padded-array-out-of-class")
+                    continue
+                if tags.get("unsized_struct_not_last"):
+                    # the model's reference decoder reads an undelimited struct greedily; what these layouts mean is
+                    # fixed by the reference ENCODING only (checked above: bytes, size, parse_all(serialize(v)) = v)
+                    run.hist("skipped", "unsized-struct-not-last:reference-decoder-not-applicable")
                     continue
                 if m.get("r") != "ok":
                     rep["signature"] = {"class": "accepts-invalid", "reference_error": m.get("e"), **tags}
